@@ -1,5 +1,5 @@
 """C14 — a group contains exactly the nodes its filters select, each with its annotation."""
-import json, os, re
+import json, os, re, threading
 from verifkit import read_lines, REPO, VERIF
 
 REQUIRED = [
@@ -33,6 +33,11 @@ REQUIRED = [
     "DaeVerif.C14.Props.groups_error_iff",
     "DaeVerif.C14.Props.dur_bare_number_rejected",
     "DaeVerif.C14.Props.unitless_latency_is_config_error",
+    "DaeVerif.C14.Props.effective_offset_is_first_line_annotation",
+    "DaeVerif.C14.Props.config_built_iff",
+    "DaeVerif.C14.Props.group_name_resolves_to_own_members",
+    "DaeVerif.C14.Props.duplicate_or_reserved_group_name_rejected",
+    "DaeVerif.C14.Props.too_many_groups_rejected",
 ]
 
 # discrimination counters that must be non-zero in every tier (a generator edit that makes one of
@@ -53,6 +58,9 @@ GUARD_OUTBOUND = [
     "dur.result_ok_with_fraction", "dur.result_error", "dur.near_miss", "invalid.key_keyword_on_subtag",
     "func.values_9_to_40", "def.lines_13_to_30", "line.conditions_6_to_10",
     "discrim.slow_regex_match_found_after_backtracking",
+    "hist.histories", "hist.step.rename", "hist.step.retag", "hist.step.remove", "hist.step.add",
+    "hist.step.second_offer", "discrim.hist_pool_edit_changes_members",
+    "def.near_twin_of_previous_definition_same_pool", "twin.annotation", "twin.value", "twin.negation",
 ]
 # only counters that depend on the GENERATOR and the Go-side oracles, never on what the implementation answered
 GUARD_CTL = [
@@ -61,6 +69,13 @@ GUARD_CTL = [
     "policy.fixed_near_range", "policy.fixed_at_len", "pool.with_unparsable_link",
     "discrim.subtag_group_after_unfiltered_override_group_sees_tags",
     "discrim.subtag_group_after_unfiltered_override_group_sees_tags_at_debug_level",
+    # outbound table, limits, reload histories, the same node offered by two subscriptions, effective offsets
+    "names.gen_duplicate", "names.gen_reserved", "names.gen_odd_but_distinct",
+    "limit.groups_exactly_at_outbound_limit", "limit.groups_exactly_at_outbound_limit_with_duplicate_name",
+    "limit.groups_one_beyond_outbound_limit", "limit.groups_just_below_outbound_limit",
+    "reload.histories", "reload.step.rename", "reload.step.retag", "reload.step.remove", "reload.step.add",
+    "reload.step.second_offer", "reload.step.unchanged", "discrim.reload_pool_edit_changes_members",
+    "pool.same_link_in_two_subscriptions", "seq.group_is_near_twin_of_previous_group", "twin.annotation",
 ]
 MIRRORED_GO = "go1.26"   # the time.ParseDuration that lean/DaeVerif/C14/Model.lean mirrors
 
@@ -98,27 +113,58 @@ def _scan_block_end(src, open_idx):
     return -1
 
 
+REGION_START = "_direct, directProperty := dialer.NewDirectDialer("
+REGION_POOL = "dialerSet := outbound.NewDialerSetFromLinksContext("
+REGION_FREE = ("option tagToNodeList groups global log core disableKernelAliveCallback deferFuncs outboundId2Name "
+               "(declared by the wrapper: dialerSet outbounds outboundName2Id err)")
+
+
 def extract_group_region(ctx):
-    """Write zz_verif_c14_region.go: the verbatim pool+group region of NewControlPlane from /repo's
-    CURRENT control_plane.go, wrapped into a function.  Returns the path or None (markers gone)."""
+    """Write zz_verif_c14_region.go: the verbatim outbound region of NewControlPlane from /repo's CURRENT
+    control_plane.go — from the construction of `direct`/`block` through the node pool, the group loop,
+    the alive-transition registration, the outbound-count limit and the name -> id table — wrapped into
+    a function.  Returns (path, description) or (None, reason) when a marker is gone (fail closed)."""
     path = os.path.join(REPO, "control", "control_plane.go")
     src = open(path, encoding="utf-8").read()
-    start_pat = "dialerSet := outbound.NewDialerSetFromLinksContext("
-    a = src.find(start_pat)
-    if a < 0 or src.find(start_pat, a + 1) >= 0:
-        return None, ("start marker `%s` not found exactly once (the wrapper provides exactly these free identifiers to "
-                      "the region: option tagToNodeList groups global log core disableKernelAliveCallback deferFuncs "
-                      "outbounds dialerSet err)" % start_pat)
-    a = src.rfind("\n", 0, a) + 1
+    a0 = src.find(REGION_START)
+    if a0 < 0 or src.find(REGION_START, a0 + 1) >= 0:
+        return None, ("start marker `%s` not found exactly once (the wrapper provides exactly these free identifiers "
+                      "to the region: %s)" % (REGION_START, REGION_FREE))
+    a = src.find(REGION_POOL, a0)
+    if a < 0 or src.find(REGION_POOL, a + 1) >= 0:
+        return None, "pool construction `%s` not found exactly once after the direct/block outbounds" % REGION_POOL
+    if a - a0 > 3000:
+        return None, "the pool construction no longer follows the direct/block outbounds"
+    if src.count("outbounds := []*outbound.DialerGroup{", a0, a) != 1:
+        return None, "`outbounds := []*outbound.DialerGroup{` not found exactly once between the markers"
     m = re.compile(r"for\s+_,\s*group\s*:=\s*range\s+groups\s*\{").search(src, a)
     if not m:
         return None, "loop `for _, group := range groups {` not found after the pool construction"
     if m.start() - a > 1500:
         return None, "group loop no longer follows the pool construction"
-    b = _scan_block_end(src, m.end() - 1)
-    if b < 0:
+    b0 = _scan_block_end(src, m.end() - 1)
+    if b0 < 0:
         return None, "could not find the end of the group loop"
-    region = src[a:b].replace("dialerSet := outbound.", "dialerSet = outbound.", 1)
+    m2 = re.compile(r"for\s+i,\s*o\s*:=\s*range\s+outbounds\s*\{").search(src, b0)
+    if not m2:
+        return None, "name table loop `for i, o := range outbounds {` not found after the group loop"
+    if m2.start() - b0 > 1500:
+        return None, "the name table loop no longer follows the group loop"
+    if src.count("outboundName2Id := make(map[string]uint8)", b0, m2.start()) != 1:
+        return None, "`outboundName2Id := make(map[string]uint8)` not found exactly once before the name table loop"
+    b = _scan_block_end(src, m2.end() - 1)
+    if b < 0:
+        return None, "could not find the end of the name table loop"
+    a0 = src.rfind("\n", 0, a0) + 1
+    region = src[a0:b]
+    # three declarations become assignments to the wrapper's variables of the same type, so that the
+    # wrapper can hand the objects out (also on the error paths)
+    for decl, asg in (("dialerSet := outbound.", "dialerSet = outbound."),
+                      ("outbounds := []*outbound.DialerGroup{", "outbounds = []*outbound.DialerGroup{"),
+                      ("outboundName2Id := make(map[string]uint8)", "outboundName2Id = make(map[string]uint8)")):
+        if region.count(decl) != 1:
+            return None, "`%s` not exactly once in the region" % decl
+        region = region.replace(decl, asg, 1)
     # imports of control_plane.go that the region uses
     imp = re.search(r"import\s*\((.*?)\n\)", src, re.S)
     imports = {}
@@ -135,7 +181,7 @@ def extract_group_region(ctx):
         imports.setdefault(p, None)
     gen = os.path.join(ctx.out, "c14_region.go")
     with open(gen, "w") as f:
-        f.write("// Code generated by /verif/checks/c14.py from %s (bytes %d..%d). DO NOT EDIT.\n" % (path, a, b))
+        f.write("// Code generated by /verif/checks/c14.py from %s (bytes %d..%d). DO NOT EDIT.\n" % (path, a0, b))
         f.write("package control\n\nimport (\n")
         for p, alias in sorted(imports.items()):
             f.write('\t%s"%s"\n' % ((alias + " ") if alias else "", p))
@@ -143,30 +189,43 @@ def extract_group_region(ctx):
 
 type c14Region struct {
 	DialerSet   *outbound.DialerSet
-	Outbounds   []*outbound.DialerGroup // [0], [1] stand for direct / block
+	Outbounds   []*outbound.DialerGroup // [0], [1] = direct / block
 	DeferFuncs  []func() error
 	CallbackIDs []uint8 // the outbound ids the region asked alive-change callbacks for, in order
+	Name2Id     map[string]uint8
+	Id2Name     map[uint8]string
+	Transition  int // alive-transition callbacks registered
 }
 
-// stands for *controlPlaneCore: what the kernel connectivity callback DOES is C16's subject; here
-// only which outbound id each group is wired to is recorded.
-type c14StubCore struct{ ids []uint8 }
+// stands for *controlPlaneCore: what the kernel connectivity callback and the transition callback DO is
+// C16's subject; here only which outbound id each group is wired to is recorded.
+type c14StubCore struct {
+	ids        []uint8
+	transition int
+}
 
 func (c *c14StubCore) outboundAliveChangeCallback(id uint8, _ bool) func(bool, *dialer.NetworkType, bool) {
 	c.ids = append(c.ids, id)
 	return func(bool, *dialer.NetworkType, bool) {}
 }
 
+func (c *c14StubCore) dialerAliveTransitionCallback(_ *dialer.Dialer) func(*dialer.NetworkType, bool) {
+	c.transition++
+	return func(*dialer.NetworkType, bool) {}
+}
+
 func c14RealGroupRegion(option *dialer.GlobalOption, tagToNodeList map[string][]string, groups []config.Group, global *config.Global, log *logrus.Logger) (res *c14Region, err error) {
 	var deferFuncs []func() error
 	var dialerSet *outbound.DialerSet
-	outbounds := []*outbound.DialerGroup{nil, nil}
+	var outbounds []*outbound.DialerGroup
+	var outboundName2Id map[string]uint8
+	outboundId2Name := make(map[uint8]string)
 	core := &c14StubCore{}
 	disableKernelAliveCallback := true
 	_, _, _, _ = core, disableKernelAliveCallback, global, log
 	defer func() {
 		if err != nil {
-			res = &c14Region{DialerSet: dialerSet, DeferFuncs: deferFuncs, CallbackIDs: core.ids}
+			res = &c14Region{DialerSet: dialerSet, Outbounds: outbounds, DeferFuncs: deferFuncs, CallbackIDs: core.ids}
 		}
 	}()
 	// ---------------------------------------------------------------- verbatim from control_plane.go
@@ -174,10 +233,11 @@ func c14RealGroupRegion(option *dialer.GlobalOption, tagToNodeList map[string][]
         f.write(region)
         f.write("""
 	// ---------------------------------------------------------------- end of verbatim region
-	return &c14Region{DialerSet: dialerSet, Outbounds: outbounds, DeferFuncs: deferFuncs, CallbackIDs: core.ids}, nil
+	return &c14Region{DialerSet: dialerSet, Outbounds: outbounds, DeferFuncs: deferFuncs, CallbackIDs: core.ids,
+		Name2Id: outboundName2Id, Id2Name: outboundId2Name, Transition: core.transition}, nil
 }
 """)
-    return gen, "bytes %d..%d of control_plane.go (%d lines)" % (a, b, region.count("\n") + 1)
+    return gen, "bytes %d..%d of control_plane.go (%d lines: direct/block, pool, group loop, transition registration, outbound limit, name table)" % (a0, b, region.count("\n") + 1)
 
 
 # --------------------------------------------------------------------------- comparison
@@ -245,7 +305,7 @@ def compare_stream(ctx, name, report, stricter, permissive, structonly, toolchai
         # else that is accepted although invalid stays a violation.
         if canon(mdl) == "ERR" and im.startswith("ok ") and sd.get("kwsubtag") == "true":
             f = im.split()
-            if (op.startswith("fa ") and len(f) == 3 and "spec=" + f[1] == f[2]) or op.startswith(("grp ", "grps ")):
+            if (op.startswith("fa ") and len(f) == 3 and "spec=" + f[1] == f[2]) or op.startswith(("grp ", "grps ", "cfg ")):
                 permissive.append((name, ln))
                 continue
         real.append((ln, op, im, mdl))
@@ -272,14 +332,12 @@ def compare_stream(ctx, name, report, stricter, permissive, structonly, toolchai
 def run(ctx):
     ctx.trusted += [
         "regexp2.Compile/MatchString and time.ParseDuration are oracles of the model (library code, evaluated by the harness independently of the filter code and passed to the driver as tables); the option word passed to Compile is visible to the tie only (discrimination counters discrim.regexopt.*)",
-        "the pool+group region of control.NewControlPlane is executed VERBATIM (extracted by checks/c14.py from the current control_plane.go into a function of package control; *controlPlaneCore replaced by a stub whose outboundAliveChangeCallback only records the outbound id it is asked for); half of the calls with a Debug-level logger so that the region's IsLevelEnabled(Debug) arm runs; the rest of NewControlPlane (incl. everything after the loop's closing brace) is not run",
+        "the outbound region of control.NewControlPlane (direct/block outbounds, node pool, group loop, alive-transition registration, outbound limit, name -> id table) is executed VERBATIM (extracted by checks/c14.py from the current control_plane.go into a function of package control; three declarations become assignments to wrapper variables; *controlPlaneCore replaced by a stub whose callbacks only record the outbound id they are asked for); half of the calls with a Debug-level logger so that the region's IsLevelEnabled(Debug) arm runs; the rest of NewControlPlane (incl. everything after the name-table loop's closing brace) is not run",
+        "the effective latency offsets are read from every AliveDialerSet of a built group through a read-only accessor injected by overlay, exactly as the selection code reads the map (missing entry = 0); what the latency policies do with them is C15/C16",
         "time.ParseDuration of the Go toolchain that builds the harness (mirrored in Lean from go1.26 and compared on the `dur` ops; with another toolchain a difference is a NOTE); filterHit discards the error of regexp2's MatchString, so a time-out would silently count as no match: no MatchTimeout is set anywhere in /repo today, pinned by two directed slow-regex ops",
         "link -> (name, dialer) is the outbound library's job; the harness only checks that names/tags written as links come back unchanged",
         "text -> []*Function is the real config parser's job (C17); C14 compares what it wrote with what the parser delivered (valid UTF-8 definitions) and models from config.Group on",
     ]
-    ctx.prove(["DaeVerif.C14.Props"], ["DaeVerif.C14.Props"], ["DaeVerif/C14/*.lean"], extra_targets=["c14drv"])
-    ctx.required_theorems(REQUIRED)
-
     budget = {}
 
     def report(kind, what, obj):   # at most 4 replay files per kind of disagreement
@@ -290,18 +348,71 @@ def run(ctx):
     stricter, permissive, structonly, toolchain = [], [], [], []
     hov = os.path.join(VERIF, "harness", "overlay")
 
+    # ------------------------------------------------------------------ builds
+    # read-only accessors (never in /repo): DialerSet / DialerGroup internals, AliveDialerSet offsets
+    access = {
+        os.path.join(REPO, "component", "outbound", "zz_verif_c14_access.go"): os.path.join(hov, "component/outbound/c14_access.go"),
+        os.path.join(REPO, "component", "outbound", "dialer", "zz_verif_c14_access.go"): os.path.join(hov, "component/outbound/dialer/c14_access.go"),
+    }
+    gen, how = extract_group_region(ctx)
+    ctx.cov["control_plane_region"] = how
+    if not gen:
+        ctx.say("TRANSLATOR-FAILED C14 outbound region:", how,
+                "- the outbound region of NewControlPlane can no longer be located; adapt extract_group_region")
+        return 2
+    genfile = os.path.join(ctx.out, "c14_gen_test.go")
+    open(genfile, "w").write(open(os.path.join(hov, "component/outbound/c14_gen_test.go")).read()
+                             .replace("package outbound", "package control", 1))
+    extra = dict(access)
+    extra[os.path.join(REPO, "control", "zz_verif_c14_region.go")] = gen
+    # the control-plane harness (the slower link) is built in the background while the package-outbound
+    # harness is built and run
+    ctl_build = {}
+
+    def build_ctl():
+        try:
+            ctl_build["bin"] = ctx.go_test_build("control", ["control/c14_test.go", genfile], "c14ctl", extra_overlay=extra)
+        except Exception as e:   # noqa: BLE001 - reported below as a build failure (exit 2)
+            ctl_build["exc"] = e
+
+    th = threading.Thread(target=build_ctl, daemon=True)
+    th.start()
+    out_build = {}
+
+    def build_out():
+        try:
+            out_build["bin"] = ctx.go_test_build("component/outbound",
+                                                 ["component/outbound/c14_test.go", "component/outbound/c14_gen_test.go"],
+                                                 "c14", extra_overlay=dict(access))
+        except Exception as e:   # noqa: BLE001
+            out_build["exc"] = e
+
+    th2 = threading.Thread(target=build_out, daemon=True)
+    th2.start()
+
+    # ------------------------------------------------------------------ proofs (while the harnesses compile)
+    ctx.prove(["DaeVerif.C14.Props"], ["DaeVerif.C14.Props"], ["DaeVerif/C14/*.lean"], extra_targets=["c14drv"])
+    ctx.required_theorems(REQUIRED)
+
     # ------------------------------------------------------------------ A. package outbound
-    binp = ctx.go_test_build("component/outbound",
-                             ["component/outbound/c14_test.go", "component/outbound/c14_gen_test.go"], "c14")
+    th2.join()
+    if "exc" in out_build:
+        th.join()
+        ctx.say("HARNESS-BUILD-FAILED component/outbound:", out_build["exc"])
+        return 2
+    binp = out_build.get("bin")
     if not binp:
+        th.join()
         return 2
     rc, out = ctx.run_harness(binp, "TestVerifC14")
     if rc != 0 or not os.path.exists(os.path.join(ctx.out, "c14.ops")):
+        th.join()
         ctx.say("HARNESS-FAILED", out[-3000:])
         return 2
     try:
         o, i, s = compare_stream(ctx, "c14", report, stricter, permissive, structonly, toolchain)
     except DriverFailed as e:
+        th.join()
         ctx.say("DRIVER-FAILED", e)
         return 2
 
@@ -344,20 +455,11 @@ def run(ctx):
     stats = json.load(open(os.path.join(ctx.out, "c14.stats.json")))
 
     # ------------------------------------------------------------------ B. package control: the real region
-    gen, how = extract_group_region(ctx)
-    ctx.cov["control_plane_region"] = how
-    if not gen:
-        ctx.say("TRANSLATOR-FAILED C14 group region:", how,
-                "- the pool/group region of NewControlPlane can no longer be located; adapt extract_group_region")
+    th.join()
+    if "exc" in ctl_build:
+        ctx.say("HARNESS-BUILD-FAILED control:", ctl_build["exc"])
         return 2
-    genfile = os.path.join(ctx.out, "c14_gen_test.go")
-    open(genfile, "w").write(open(os.path.join(hov, "component/outbound/c14_gen_test.go")).read()
-                             .replace("package outbound", "package control", 1))
-    extra = {
-        os.path.join(REPO, "control", "zz_verif_c14_region.go"): gen,
-        os.path.join(REPO, "component", "outbound", "zz_verif_c14_access.go"): os.path.join(hov, "component/outbound/c14_access.go"),
-    }
-    binc = ctx.go_test_build("control", ["control/c14_test.go", genfile], "c14ctl", extra_overlay=extra)
+    binc = ctl_build.get("bin")
     if not binc:
         return 2
     rc, out = ctx.run_harness(binc, "TestVerifC14Ctl")
@@ -391,7 +493,19 @@ def run(ctx):
         if sd.get("valid") == "false" and im.startswith("ok ") and sd.get("kwsubtag") != "true":
             report("invalid-accepted", "invalid filter/annotation accepted silently by the control-plane region (%s)" % im[:200],
                    {"op": op, "impl": im})
+        # Go-side oracle for the outbound table (independent of Lean): a name used twice (or a group called
+        # direct / block), or more outbounds than ids, must be a configuration error
+        if sd.get("names") in ("dup", "toomany") and im.startswith("ok "):
+            report("names", "outbound table built although %s (%s)" % (
+                "a group name is used twice or is reserved" if sd.get("names") == "dup" else "there are more outbounds than the id space allows",
+                im[-200:]), {"op": op, "impl": im})
     cstats = json.load(open(os.path.join(ctx.out, "c14ctl.stats.json")))
+    n_perm = sum(1 for x in cs if "idsperm=true" in x)
+    if n_perm:
+        ctx.say(f"NOTE C14: in {n_perm} configuration(s) the groups are numbered in another order than the configuration's "
+                "(name -> id -> stored group is still a bijection with direct = 0, block = 1): no selection depends on it; "
+                "update Model.lean (buildConfig / nameIds) to the new order")
+    ctx.cov["outbound_ids_in_other_than_configuration_order"] = n_perm
 
     if structonly:
         ctx.say(f"NOTE C14: {len(structonly)} op(s) on forms only the struct path can express (condition without values, line "
@@ -437,10 +551,10 @@ def run(ctx):
     ]
     rc = ctx.finish(
         rule="ops = `fa` (pool, filter lines, annotations -> members with annotations | error) and `grp` (policy + the same -> "
-             "group members, fixed(i) selection under every network type | error), `grps` (several groups over one pool through "
-             "the verbatim NewControlPlane region, stream c14ctl, pools written as subscription links) and `dur` (a duration "
+             "group members, effective latency offsets of every alive set, fixed(i) selection under every network type | error), `cfg` (several NAMED groups over one pool through "
+             "the verbatim NewControlPlane outbound region incl. the outbound limit and the name -> id table, stream c14ctl, pools written as subscription links, reload histories) and `dur` (a duration "
              "string -> ns | error); stream c14 = hand-made pools in package outbound; one op is one (pool, group definition) pair; the regexp2 / ParseDuration results the op needs travel "
-             "with it; distinct_nontrivial counts distinct `fa` + control-plane `grps` ops",
+             "with it; distinct_nontrivial counts distinct `fa` + control-plane `cfg` ops",
         evaluations=len(o) + len(co), distinct=len(distinct))
     if rc != 0:
         return rc          # recorded violations win over everything else
